@@ -23,7 +23,7 @@ from .c10 import registries, _HELPER
 ASSUMPTIONS = [
     'grammar facts are evaluated concretely on all 17 files (no free variable); reported as ground facts, not as solver queries',
     'reachability / consumer queries: quick tier covers all entries of the small registries and a seed-rotated sample of the large ones (oui, imsi, cn/loc, nz/banks, at/postleitzahl, isbn, iban); thorough covers larger samples',
-    'GS1 application identifiers are exercised by the C16 check (encode/decode per AI), not here',
+    'GS1 application identifiers: every identifier is run through the C16 round-trip unit (value of maximal length, both separators, parentheses on/off)',
     'update/*.py need the network and are not run',
 ]
 
@@ -282,8 +282,13 @@ def unit_isbn(unit):
     return ur.finish()
 
 
+def unit_gs1(unit):
+    from . import c16
+    return c16.unit_fn(unit)
+
+
 def unit_fn(unit):
-    return {'grammar': unit_grammar, 'reach': unit_reach, 'iban': unit_iban, 'isbn': unit_isbn}[unit['kind']](unit)
+    return {'grammar': unit_grammar, 'reach': unit_reach, 'iban': unit_iban, 'isbn': unit_isbn, 'gs1': unit_gs1}[unit['kind']](unit)
 
 
 def main(args):
@@ -329,6 +334,15 @@ def main(args):
             rs = rnd.sample(rs, min(240, len(rs)))
         for i in range(0, len(rs), 10):
             units.append({'kind': 'isbn', 'module': 'stdnum.isbn', 'ranges': rs[i:i + 10], 'L': 0, 'timeout': 100 if tier == 'quick' else 900})
+    if 'gs1_ai' in trees:
+        # each GS1 application identifier can be encoded and decoded (the C16 unit, one identifier at a time, maximal lengths)
+        ents = []
+        for e in trees['gs1_ai']:
+            for n in range(int(e[1]), int(e[2]) + 1):
+                ents.append((str(n).zfill(len(e[1])), e[3]))
+        for ai, props in ents:
+            units.append({'kind': 'gs1', 'module': 'stdnum.gs1_128', 'ais': [(ai, props)], 'L': 0, 'variants': [2] if tier == 'quick' else [0, 1, 2, 5],
+                          'max_paths': 100, 'timeout': 25 if tier == 'quick' else 200, 'options': {'ai': ai}})
     rep = common.Report('C11', tier)
     rep.assumptions = ASSUMPTIONS
     rep.bounds = {'registries': {n: sum(1 for _ in _flatten(t)) for n, t in trees.items()}, 'sampling': 'seed-rotated (VERIF_SEED) for registries above the per-tier cap'}
